@@ -141,6 +141,25 @@ func (s *baseSpec) build(thorough bool) *base {
 			k++
 		}
 		b.cs = cs
+		if n > 100000 {
+			// the 65535 / 65536-element bases of the thorough tier weigh up to 2.7 MB each:
+			// count fields only, 16 cut points at each end, no byte substitutions
+			b.pos8 = nil
+			var cuts []int
+			for _, p := range b.cuts {
+				if p < 16 || p >= n-16 {
+					cuts = append(cuts, p)
+				}
+			}
+			b.cuts = cuts
+			cs = nil
+			for _, c := range b.cs {
+				if c.Kind == "cs:nin" || c.Kind == "cs:nout" || c.Kind == "cs:nwit" {
+					cs = append(cs, c)
+				}
+			}
+			b.cs = cs
+		}
 		return &b
 	}
 	if len(b.enc) <= 600 || thorough {
